@@ -201,7 +201,11 @@ func (s *Server) verifySortition(pubKey *ecdsa.PublicKey, data *SortitionData, l
 	isValid, err := VrfVerifySortition(pk, lookBackSeed, data.RoundIndex, data.Step, data.Proof, data.Votes, threshold, stake, totalStake)
 	if err != nil || !isValid {
 		if data.Round.Cmp(s.currentRound) < 0 || data.RoundIndex < s.roundIndex {
-			return nil
+			// late message: not worth an error log, but still not verified
+			if err == nil {
+				err = fmt.Errorf("sortition is not correct")
+			}
+			return err
 		}
 		logging.Error("=======verify sortition failed.", "Round", data.Round, "RoundIndex", data.RoundIndex,
 			"step", data.Step, "validatorTh", threshold,
